@@ -47,7 +47,7 @@ CLAIMS = {
          'CBMC function/loop contracts with ghost lock state on mechanically extracted C', '6 C10'),
  'C11': ('proof',
          'Module::initialize/start/stop/cleanup under CBMC contracts for every module state, every number of children (loop contracts), every hook outcome: balance invariant (successful init <-> pending cleanup, successful start <-> pending stop) on every exit incl. failing required children, hooks only in legal states (start after init, stop only started, cleanup after stop), parent before children, children in registration order / exact reverse order, optional-child failures tolerated. Recursion through child-view contracts.',
-         'Trusted: printer, CBMC, std::vector/std::string/Json models, hook stubs (any result). Induction over tree depth is a paper step; add()/~Module/Main() not covered.',
+         'Trusted: printer, CBMC, std::vector/std::string/Json models, hook stubs (any result). Induction over tree depth is a paper step; add() / Main() not covered.',
          'CBMC function contracts + loop contracts with ghost call counters on mechanically extracted C', '6 C11'),
  'C20': ('other',
          'Alarm::activeTimer/onTimeExpired/enable/disable/cleanup/refresh under unbounded CBMC contracts: the armed delay in ms (64-bit) is never shorter than the wall-clock distance for every distance, the computation starts from max(now, previous target) so one instant is served once, re-arm before the user callback, a callback that disables the alarm leaves it disabled, disable/cleanup disarm. Next-instant functions of the one-shot, weekly and workday alarms: result matches the configuration, is strictly after the current time and no earlier instant matches (ghost witness) - bounded domain (current time < 32 days from the epoch, thorough 1024 days; all masks, seconds of day, calendars symbolic; workday scan by loop contract).',
@@ -100,6 +100,7 @@ ADD_TEXT = {
  'C06': 'TcpConnection and TcpServer: the buffered descriptor / the connection object is disabled, detached and destroyed only by a posted task, exactly once; a peer close is reported exactly once; sends after the close are refused.',
  'C07': 'hasRead / hasWritten are proved for ANY size (no wrap of index + size).',
  'C09': 'Sink (filter, handleLog, cached timestamp string, enable/disable order), the AsyncSink back-end re-framing loop and the record formatting (every append inside its source object) are under contract as well.',
+ 'C11': 'Module::~Module: cleanup first, then every child destroyed exactly once, in registration order.',
  'C12': 'Server::Impl::commitRespond (order, once, nothing after the closing response) and Server::Impl::onTcpReceived (one context per request, the closing request is the last one, the read side stays open while a response is owed, clean drop on parse failure), Server::Impl::onTcpSendCompleted (closed exactly when the response to the closing request has gone out); the parser contract also states that a declared body is part of what is consumed.',
  'C13': 'Terminal::Impl::onRecvString (scanner restarted per segment and per key, every completed key dispatched to exactly its editor action once). Telnetd::Impl::onTcpReceived framing loop: bounds of every byte looked at, complete-negotiation-or-wait, progress (bounded domain: 64 pending bytes).',
  'C14': 'Rpc::request / onRecvRespond / onRequestTimeout: one fresh id per request for callback, deadline and message; an outstanding id is completed exactly once, unknown / duplicate / late ids are ignored. Proto::onRecvJson: no exception for any JSON content, at most one callback per message, recursion into batch elements bounded by one level.',
